@@ -8,7 +8,7 @@ from prog_registry import RegistryProgram, oracle_registry
 from prog_children import ChildrenProgram, oracle_children
 from prog_broker import BrokerProgram, oracle_broker
 from prog_mailbox import (oracle_containment, oracle_owning, MailboxProgram, oracle_fifo, oracle_own_result, oracle_resolves, oracle_stop_barrier,
-                          oracle_backpressure, oracle_handles, oracle_liveness_flags, oracle_lifecycle, oracle_stream)
+                          oracle_backpressure, oracle_handles, oracle_liveness_flags, oracle_lifecycle, oracle_stream, oracle_timeouts)
 
 
 def mailbox_programs(tier):
@@ -18,13 +18,14 @@ def mailbox_programs(tier):
 
     def add(name, cap, scripts, hp=0, tag='q', **kw):
         d = dict(name=name, cap=cap, scripts=scripts, hp=hp, tag=tag, pre=(), started_actions=(), strategy='RestartOnly',
-                 faults=0, max_clock=None, K=None, max_steps=60, started=None, owning=False, registry=False, mt=False, children=(), broker=None, entry=None, fault_targets=None, stream=False)
+                 faults=0, max_clock=None, K=None, max_steps=60, started=None, owning=False, registry=False, mt=False, children=(), broker=None, entry=None, fault_targets=None, stream=False, timeout=None, cb_pending=None)
         d.update(kw)
         P.append(d)
     # FIFO across paths and clients, own result, stop barrier
     add('fifo_mixed_unbounded', None, {'c1': [('send', A, 'a1'), ('call', A, 'a2')], 'c2': [('call', A, 'b1')]}, 1)
     add('fifo_mixed_bounded1', 1, {'c1': [('send', A, 'a1'), ('call', A, 'a2')], 'c2': [('send', A, 'b1')]}, 1)
     add('fifo_bounded2_send_then_call', 2, {'c1': [('send', A, 'a1'), ('call', A, 'a2')]}, 1)
+    add('fifo_bounded3_burst', 3, {'c1': [('send', A, 'a1'), ('send', A, 'a2'), ('send', A, 'a3'), ('call', A, 'a4')]}, 1)
     add('kinds', None, {'c1': [('mk_sender', A, 's'), ('mk_caller', A, 'c'), ('sender_send', 's', 'a1'), ('caller_call', 'c', 'a2'), ('ping', A), ('call', A, 'a3')]})
     add('stop_race', None, {'c1': [('call', A, 'a1'), ('stop', A), ('call', A, 'a2')], 'c2': [('send', A, 'b1')]})
     add('stop_race_bounded', 1, {'c1': [('send', A, 'a1'), ('stop', A), ('send', A, 'a2')], 'c2': [('call', A, 'b1')]})
@@ -42,6 +43,7 @@ def mailbox_programs(tier):
     add('handles_two_tasks', None, {'c1': [('mk_sender', A, 's'), ('drop', A), ('sender_send', 's', 'a1'), ('drop', 's')], 'c2': [('upgrade', 'w'), ('upgrade', 'w')]}, 0, 't', pre=(('downgrade', A, 'w'),))
     add('flags_unawaited', None, {'c1': [('running', A), ('stop', A), ('ping', A), ('stopped', A), ('running', A)]})
     add('flags_awaited', None, {'c1': [('clone', A, 'a2'), ('stop', A), ('await', 'a2'), ('stopped', A), ('downgrade', A, 'w'), ('weak_stopped', 'w')]})
+    add('flags_during_stopped_hook', None, {'c1': [('stop', A)], 'c2': [('stopped', 'a2'), ('running', 'a2'), ('weak_stopped', 'w')]}, pre=(('clone', A, 'a2'), ('downgrade', A, 'w')), cb_pending={'stopped': 1}, K=3)
     add('flags_failed_start', None, {'c1': [('clone', A, 'a2'), ('await', 'a2'), ('stopped', A), ('running', A), ('downgrade', A, 'w'), ('weak_stopped', 'w'), ('call', A, 'a1')]}, started={1: 'err'})
     add('flags_killed', None, {'c1': [('ping', A), ('clone', A, 'a2'), ('await', 'a2'), ('stopped', A), ('running', A)]}, faults=1, K=2)
     # failure containment (C06 / C02): the actor task is cancelled at any step / a handler panics
@@ -54,6 +56,7 @@ def mailbox_programs(tier):
     add('timers_weak_upgrade_after_drop', None, {'c1': [('ping', A), ('downgrade', A, 'w'), ('mk_weak_sender', A, 'ws'), ('drop', A), ('upgrade', 'w'), ('upgrade_sender', 'ws')]}, started_actions=(('interval', 'tick', 2),), max_clock=4, K=2, max_steps=24)
     add('timers_interval_with_bounded', 1, {'c1': [('send', A, 'a1'), ('stop', A)]}, 1, started_actions=(('interval_with', 'tw', 1),), max_clock=2, K=1, max_steps=20)
     add('timers_delayed_exec_kill', None, {'c1': [('ping', A)]}, started_actions=(('delayed_exec', 'de', 2), ('interval', 'tick', 1)), max_clock=3, K=1, faults=1, max_steps=20)
+    add('timers_handler_panics', None, {'c1': [('call', A, 'panic:1')]}, started_actions=(('delayed_exec', 'de', 2), ('interval', 'tick', 1)), max_clock=3, K=1, max_steps=20)
     add('timers_restart', None, {'c1': [('restart', A), ('ping', A)]}, started_actions=(('interval', 'tick', 2),), max_clock=4, K=2, max_steps=20)
     add('timers_restart_recreate', None, {'c1': [('restart', A), ('ping', A), ('stop', A)]}, started_actions=(('interval', 'tick', 2),), max_clock=4, K=2, max_steps=22, strategy='RecreateFromDefault', tag='t')
     add('timers_fail_restart', None, {'c1': [('restart', A), ('ping', A)]}, started_actions=(('delayed_exec', 'de', 3), ('interval', 'tick', 2)), started={2: 'err'}, max_clock=6, K=1, max_steps=22)
@@ -66,6 +69,10 @@ def mailbox_programs(tier):
         else:
             sc = [('entry', ep), ('call', A, 'a1'), ('restart', A), ('call', A, 'a2'), ('stop', A), ('await', A)]
         add('strategy_' + ep, None, {'c1': sc}, entry=ep, strategy=strat, K=1)
+    # handler timeouts on the virtual clock (C11): budget counted from the start of each handler, also after idle gaps
+    add('timeout_idle_then_slow_handler', None, {'c1': [('sleep', 3), ('call', A, 'a1'), ('call', A, 'a2')]}, 1, timeout=(2, False), max_clock=6, K=2, max_steps=30)
+    add('timeout_fail_on_timeout', None, {'c1': [('call', A, 'a1'), ('call', A, 'a2'), ('stop', A)], 'c2': [('await', A)]}, 1, timeout=(1, True), max_clock=4, K=2, max_steps=30)
+    add('timeout_none_configured', None, {'c1': [('sleep', 2), ('call', A, 'a1')]}, 1, max_clock=4, K=1, max_steps=20, tag='t')
     # stream-attached actors (C13; also C03 lifecycle with finished): the stream is a queue fed by a producer task
     add('stream_items_then_end', None, {'prod': [('feed', 'i1'), ('feed', 'i2'), ('end_stream',)], 'c1': [('call', A, 'a1'), ('await', A)]}, stream=True, K=1, strategy='NonRestartable')
     add('stream_stop_never_ends', None, {'prod': [('feed', 'i1')], 'c1': [('send', A, 'a1'), ('stop', A), ('await', A)]}, stream=True, K=2, strategy='NonRestartable')
@@ -85,6 +92,7 @@ def mailbox_programs(tier):
     # children (C16)
     R, AC = 'register_child', 'add_child'
     add('children_broadcast_stop', None, {'c1': [('call', A, 'bcast:1'), ('stop', A)]}, children=(('c1', R, False), ('c2', AC, False)), K=2)
+    add('children_parent_restarts', None, {'c1': [('call', A, 'bcast:1'), ('restart', A), ('call', A, 'bcast:2'), ('stop', A)]}, children=(('c1', R, False), ('c2', AC, False)), K=1)
     add('children_two_under_m', None, {'c1': [('call', A, 'bcast:1'), ('call', A, 'bcast:2'), ('drop', A)]}, children=(('c1', R, False), ('c2', R, False)), K=1)
     add('children_sibling_stopped_first', None, {'c1': [('stop', 'c1'), ('ping', 'c1'), ('call', A, 'bcast:1'), ('stop', A)]}, children=(('c1', R, True), ('c2', R, False)), K=1)
     add('children_parent_killed', None, {'c1': [('call', A, 'bcast:1'), ('ping', A)]}, children=(('c1', R, False), ('c2', AC, False)), K=1, faults=1)
@@ -116,7 +124,7 @@ def evaluate(tr, status, cap, scripts, spec=None):
     multi = spec is not None and (spec.get('broker') or spec.get('children') or spec.get('registry'))
     if not (spec is not None and spec.get('broker')):
         # (broker programs: the subscribing started() is driven as the Context::subscribe coroutine, its completion is not an event)
-        out['C03'] += oracle_lifecycle(tr, single=not multi)
+        out['C03'] += oracle_lifecycle(tr, single=not multi, fail_on_timeout=bool(spec and spec.get('timeout') and spec['timeout'][1]))
     if spec is not None and spec.get('broker'):
         out['C09'] += oracle_broker(tr, status, dict(spec['broker'], scripts=scripts))
         out['C02'] += oracle_resolves(tr, status, scripts)
@@ -148,7 +156,9 @@ def evaluate(tr, status, cap, scripts, spec=None):
     out['C01'] += oracle_fifo(tr, scripts)
     out['C02'] += oracle_own_result(tr, scripts)
     out['C02'] += oracle_resolves(tr, status, scripts)
-    out['C04'] += oracle_stop_barrier(tr, scripts)
+    if not (spec is not None and spec.get('timeout')):
+        # (with a handler timeout a call may legitimately fail before any stop: abandoned handler / failed actor)
+        out['C04'] += oracle_stop_barrier(tr, scripts)
     if cap != 'sym':
         out['C12'] += oracle_backpressure(tr, cap, scripts)
     c05, c15 = oracle_handles(tr, status, scripts, initial='o' if (spec or {}).get('owning') else 'addr')
@@ -159,9 +169,17 @@ def evaluate(tr, status, cap, scripts, spec=None):
     out['C14'] += oracle_liveness_flags(tr, scripts)
     if spec is not None and spec.get('stream'):
         out['C13'] += oracle_stream(tr, status, scripts)
+        # "... or when the last strong handle is dropped ... even if the stream never ends"
+        out['C13'] += [m for m in c05 if 'never terminated' in m]
+    if spec is not None and (spec.get('timeout') or any(op[0] == 'sleep' for sc in scripts.values() for op in sc)):
+        out['C11'] += oracle_timeouts(tr, spec.get('timeout'))
     if spec is not None:
         if spec['started_actions']:
-            out['C10'] += oracle_timers(tr, status, spec['started_actions'])
+            tm = oracle_timers(tr, status, spec['started_actions'])
+            out['C10'] += tm
+            if spec['faults'] or any(str(op[2]).startswith('panic') for sc in scripts.values() for op in sc if len(op) > 2) or spec['started']:
+                # C06: once the actor died its timers stop firing
+                out['C06'] += [m for m in tm if 'terminated' in m or 'leaked' in m]
             out['C07'] += oracle_restart_timers(tr)
         out['C06'] += oracle_containment(tr, status, scripts)
         if spec.get('owning'):
@@ -171,7 +189,7 @@ def evaluate(tr, status, cap, scripts, spec=None):
     return out
 
 
-PIDS = ('C01', 'C02', 'C03', 'C04', 'C05', 'C06', 'C07', 'C08', 'C09', 'C10', 'C12', 'C13', 'C14', 'C15', 'C16', 'C17')
+PIDS = ('C01', 'C02', 'C03', 'C04', 'C05', 'C06', 'C07', 'C08', 'C09', 'C10', 'C11', 'C12', 'C13', 'C14', 'C15', 'C16', 'C17')
 
 
 def make_program(functions, enums, repo, spec, spawner=None):
@@ -184,6 +202,8 @@ def make_program(functions, enums, repo, spec, spawner=None):
     sy.user_script['started_actions'] = spec['started_actions']
     for k, v in (spec['started'] or {}).items():
         sy.user_script[('started', k)] = v
+    for k, v in (spec.get('cb_pending') or {}).items():
+        sy.user_script[('pending', k)] = v
     if spec.get('entry'):
         from prog_entry import EntryProgram
         sy.strategy = 'RestartOnly'
@@ -199,6 +219,7 @@ def make_program(functions, enums, repo, spec, spawner=None):
         cls = RegistryProgram if spec['registry'] else MailboxProgram
         p = cls(sy, cap, scripts, handler_pending=hp, max_steps=spec['max_steps'], pre=pre)
         p.stream = bool(spec.get('stream'))
+        p.timeout_cfg = spec.get('timeout')
     p.faults = spec['faults']
     if spec.get('fault_targets'):
         p.fault_targets = tuple(spec['fault_targets'])
@@ -226,17 +247,26 @@ def run(functions, enums, repo, tier, max_steps=60, seed=0, validate=None):
     stats['traces_validated_against_impl'] = 0
     stats['native_mismatches'] = []
     stats['native_confirmations'] = {}
+    stats['unsupported'] = []
     native_strat = None
     for spec in mailbox_programs(tier):
         name, cap, scripts, hp, pre = spec['name'], spec['cap'], spec['scripts'], spec['hp'], spec['pre']
         sy, p = make_program(functions, enums, repo, spec)
-        native_ok = not spec.get('entry') and not spec.get('stream') and not spec['broker'] and not spec['children'] and not spec['registry'] and not spec['owning'] and not spec['started_actions'] and not spec['faults'] and not spec['started'] and \
+        native_ok = not spec.get('entry') and not spec.get('stream') and not spec.get('timeout') and not any(op[0] == 'sleep' for sc in scripts.values() for op in sc) and not spec['broker'] and not spec['children'] and not spec['registry'] and not spec['owning'] and not spec['started_actions'] and not spec['faults'] and not spec['started'] and not spec.get('cb_pending') and \
             not any(str(op[2]).startswith('panic') for sc in scripts.values() for op in sc if len(op) > 2)
-        st = p.setup()
         n = 0
         reservoir = []
         first_witness = {}
-        for leaf in p.explore(st):
+
+        def leaves():
+            # an unsupported construct met in one program makes the run inconclusive but does not hide what the
+            # schedules explored so far (and the other programs) show
+            try:
+                st0 = p.setup()
+                yield from p.explore(st0)
+            except Unsupported as ex:
+                stats.setdefault('unsupported', []).append(f"{name}: {ex}")
+        for leaf in leaves():
             n += 1
             tr = leaf.events[leaf.events.index(('setup_done',)) + 1:]
             # reservoir sample of schedules for native validation
